@@ -169,7 +169,9 @@ def generate(rng: random.Random, tier: str):
             sphere = {"shape": shape, "vals": vals, "float": isf, "missing": miss}
         ell = None
         if rng.random() < 0.7:
-            side = rng.choice([nspace, nspace, nspace, 1, 2, 3]) or 1
+            side = rng.choice([nspace, nspace, nspace, 1, 2, 3])
+            if side == 0 and rng.random() < 0.5:
+                side = 1  # otherwise: an (n, 0, 0) stack without any spatial axis (must be rejected: no space axes)
             form = rng.choice(["ok", "ok", "ok", "ok", "rect", "nd2", "nd4"])
             mode = rng.choice(["pd", "pd", "pd", "sym", "any"])
             if form == "ok":
